@@ -513,6 +513,23 @@ def judge_c05_exact(sc, gr):
             skipped += 1
             continue
         judged += 1
+        if fs[s] != E and isinstance(fs[s], list) and fs[s] and len(fs[s]) < len(E) and _is_sublist(fs[s], E):
+            # reward analogue of KF-C04-1: an exact tie lost because round(x, 6) separates the two float evaluations
+            rew = res[2]
+            names = [a for a, _ in row]
+            best, acts = None, []
+            for a, t in row:
+                x = round(rew[t], 6)
+                if best is None or (x > best if who == P1 else x < best):
+                    best, acts = x, [a]
+                elif x == best:
+                    acts.append(a)
+            near = all(abs(float(opt) - rew[t]) <= reward_eps(AR, gr.rewards, opt) + 1e-6 for (a, t) in row if a in E)
+            if acts == fs[s] and near:
+                f.append(("KF-C04-1", fs[s], E,
+                          "state %d (%s): final strategy %r, exact reward-optimal actions %r: an exact tie lost by 6-digit rounding "
+                          "(reported successor rewards %s)" % (s, who, fs[s], E, [rew[t] for _, t in row])))
+                continue
         if fs[s] != E:
             f.append(("C05/wrong-final-strategy", fs[s], E,
                       "state %d (%s): final strategy %r, exact reward-optimal permitted actions %r (conditioned successor rewards %s, prune=%s)"
